@@ -66,6 +66,11 @@ def run(ctx):
     json_recursion(ctx)
     namespace(ctx)
     schema_state_rule(ctx)
+    # "parses back to an isomorphic graph ... every namespace arrangement": the renderer's namespace threading is judged
+    # above against the parser's protocol; that protocol itself (name keys, enclosing-namespace threading, the parser's
+    # tables, late binding) is C07's, shared here
+    from .c07 import resolution_rules
+    resolution_rules(ctx)
 
 
 def stale(ctx):
